@@ -86,9 +86,22 @@ func runC01(c *Ctx) {
 			c.Law(true, "C01/evaluate-panic", "", "", "")
 			if o.Err != nil {
 				c.Count(class + ":error")
+				// a failed evaluation leaves nothing behind: the same expression evaluated again, and the same source
+				// compiled and evaluated again, fail (or succeed) without a crash (a cache filled by the failing run)
+				o2 := safeEval(func() (system.Collection, error) { return e.Evaluate(in, env...) })
+				o3 := compileEvalOpts(src, in, env)
+				c.Law(!o2.Panicked && !o2.TimedOut, "C01/evaluate-panic", "Evaluate returns a collection or an error, also when the same evaluation failed before", src+"  (second evaluation)", o2.PanicMsg)
+				c.Law(!o3.Panicked && !o3.TimedOut, "C01/evaluate-panic", "Evaluate returns a collection or an error, also when the same evaluation failed before", src+"  (compiled and evaluated again)", o3.PanicMsg)
 			} else {
 				c.Count(class + ":value")
 			}
+		}
+	}
+	// patterns that are not regular expressions, twice each (through two different expressions)
+	for _, pat := range []string{"(unclosed", "[z-a]", "a{2,1}", "*a", "\\", "(?P<x", "[[:nope:]]"} {
+		for _, src := range []string{"'abc'.matches('" + pat + "')", "'abc'.matches('" + pat + "').not()", "'abc'.replaceMatches('" + pat + "', 'x')", "Patient.name.given.where($this.matches('" + pat + "'))"} {
+			run("bad-regex", src, nil)
+			run("bad-regex", src, nil)
 		}
 	}
 	// ---- (a) generated programs
@@ -450,6 +463,33 @@ func runC01(c *Ctx) {
 			return nil
 		})
 		c.Law(!pan, "C01/patch-panic", "every FHIRPatch call returns nil or an error", op+" on a nil resource", msg)
+	}
+	// typed nil pointers (a nil *dtpb.Boolean is a non-nil fhir.Base) as value and as resource, and nil options
+	{
+		mkPatient := func() *ppb.Patient {
+			return &ppb.Patient{Active: &dtpb.Boolean{Value: true}, Name: []*dtpb.HumanName{{Family: &dtpb.String{Value: "a"}}}}
+		}
+		probes := []struct {
+			what string
+			f    func() error
+		}{
+			{"replace Patient.active value=(*Boolean)(nil)", func() error { return patch.Replace(mkPatient(), "Patient.active", (*dtpb.Boolean)(nil)) }},
+			{"add Patient.deceased value=(*Boolean)(nil)", func() error { return patch.Add(mkPatient(), "Patient", "deceased", (*dtpb.Boolean)(nil), &patch.Options{}) }},
+			{"add Patient.name value=(*HumanName)(nil)", func() error { return patch.Add(mkPatient(), "Patient", "name", (*dtpb.HumanName)(nil), &patch.Options{}) }},
+			{"insert Patient.name value=(*HumanName)(nil)", func() error { return patch.Insert(mkPatient(), "Patient.name", (*dtpb.HumanName)(nil), 0) }},
+			{"replace Patient.name[0] value=(*HumanName)(nil)", func() error { return patch.Replace(mkPatient(), "Patient.name[0]", (*dtpb.HumanName)(nil)) }},
+			{"add with nil *Options", func() error { return patch.Add(mkPatient(), "Patient", "gender", &dtpb.Code{Value: "male"}, nil) }},
+			{"add on (*Patient)(nil)", func() error { return patch.Add((*ppb.Patient)(nil), "Patient", "name", &dtpb.HumanName{}, &patch.Options{}) }},
+			{"insert on (*Patient)(nil)", func() error { return patch.Insert((*ppb.Patient)(nil), "Patient.name", &dtpb.HumanName{}, 0) }},
+			{"delete on (*Patient)(nil)", func() error { return patch.Delete((*ppb.Patient)(nil), "Patient.name") }},
+			{"replace on (*Patient)(nil)", func() error { return patch.Replace((*ppb.Patient)(nil), "Patient.active", &dtpb.Boolean{}) }},
+			{"move on (*Patient)(nil)", func() error { return patch.Move((*ppb.Patient)(nil), "Patient.name", 0, 1) }},
+		}
+		for _, pr := range probes {
+			_, pan, msg := safeErr(pr.f)
+			c.Observe("typed-nil "+pr.what, true)
+			c.Law(!pan, "C01/patch-panic", "every FHIRPatch call returns nil or an error", pr.what, msg)
+		}
 	}
 	// ---- (h) ill-formed primitive elements x every way of converting them
 	runC01Ill(c, run)
